@@ -33,6 +33,107 @@ def build(spec):
     return o
 
 
+HISTORIES = ['standard', 'fields-first', 'type-changed', 'settings-twice']
+ROUTES = ['direct', 'handbuilt', 'reuse', 'roundtrip', 'file', 'roundtrip-twice']
+
+
+def route_corpus():
+    """fixed lenses for the construction-route check (independent of any random stream): off-axis angular fields of an
+    infinite object (where the tilt term matters), a finite-object lens with height fields, a mirror, a lens in a medium"""
+    inf = float('inf')
+    out = []
+    out.append({'name': 'singlet-stop-in-front', 'object_thickness': inf, 'aperture': ['EPD', 12.0], 'field_type': 'angle',
+                'fields': [[0.0, 0.0, 0.0, 0.0], [7.0, 0.0, 0.0, 0.0], [10.0, 0.0, 0.0, 0.0]],
+                'wavelengths': [[0.5876, True]], 'telecentric': False, 'surfaces': [
+        {'type': 'standard', 'radius': inf, 'thickness': 10.0, 'material': 'air', 'is_stop': True},
+        {'type': 'standard', 'radius': 60.0, 'thickness': 6.0, 'material': ['glass', 'N-BK7', 'schott']},
+        {'type': 'standard', 'radius': -90.0, 'thickness': 70.0, 'material': 'air'}]})
+    out.append({'name': 'doublet-two-colours', 'object_thickness': inf, 'aperture': ['imageFNO', 6.0], 'field_type': 'angle',
+                'fields': [[8.0, 0.0, 0.0, 0.0], [0.0, 0.0, 0.0, 0.0], [4.0, 0.0, 0.0, 0.0]],
+                'wavelengths': [[0.4861, False], [0.6563, True]], 'telecentric': False, 'surfaces': [
+        {'type': 'standard', 'radius': 61.0, 'thickness': 6.0, 'material': ['glass', 'N-BK7', 'schott'], 'is_stop': True},
+        {'type': 'standard', 'radius': -43.0, 'thickness': 2.5, 'material': ['glass', 'N-SF5', 'schott']},
+        {'type': 'standard', 'radius': -125.0, 'thickness': 80.0, 'material': 'air'}]})
+    out.append({'name': 'finite-object-heights', 'object_thickness': 150.0, 'aperture': ['EPD', 8.0], 'field_type': 'object_height',
+                'fields': [[0.0, 0.0, 0.0, 0.0], [6.0, 0.0, 0.0, 0.0]], 'wavelengths': [[0.55, True]], 'telecentric': False,
+                'surfaces': [
+        {'type': 'standard', 'radius': 50.0, 'thickness': 5.0, 'material': ['ideal', 1.6, 0.0], 'is_stop': True},
+        {'type': 'standard', 'radius': -50.0, 'thickness': 90.0, 'material': 'air'}]})
+    out.append({'name': 'concave-mirror', 'object_thickness': inf, 'aperture': ['EPD', 20.0], 'field_type': 'angle',
+                'fields': [[0.0, 0.0, 0.0, 0.0], [3.0, 0.0, 0.0, 0.0]], 'wavelengths': [[0.55, True]], 'telecentric': False,
+                'surfaces': [
+        {'type': 'standard', 'radius': -200.0, 'conic': -0.5, 'thickness': -100.0, 'material': 'mirror', 'is_stop': True}]})
+    out.append({'name': 'underwater-lens', 'object_thickness': inf, 'object_material': ['ideal', 1.333, 0.0],
+                'aperture': ['EPD', 6.0], 'field_type': 'angle',
+                'fields': [[0.0, 0.0, 0.0, 0.0], [9.0, 0.0, 0.0, 0.0]], 'wavelengths': [[0.5, True]], 'telecentric': False,
+                'surfaces': [
+        {'type': 'standard', 'radius': inf, 'thickness': 3.0, 'material': ['glass', 'N-BK7', 'schott']},
+        {'type': 'standard', 'radius': inf, 'thickness': 2.0, 'material': 'air', 'is_stop': True},
+        {'type': 'standard', 'radius': 30.0, 'thickness': 4.0, 'material': ['glass', 'N-LAK9', 'schott']},
+        {'type': 'standard', 'radius': -45.0, 'thickness': 35.0, 'material': 'air'}]})
+    return out
+
+
+def build_history(spec, history, route, rng):
+    """the SAME prescription reached through another legitimate history of public calls and another public route.
+    history (order of the system-level settings; the library documents no order):
+      'standard'       surfaces, aperture, field type, fields, wavelengths (lensgen.build)
+      'fields-first'   fields and wavelengths are entered into the empty Optic, before the surfaces and before set_field_type
+      'type-changed'   the lens is set up with the OTHER field type, the fields entered, then set_field_type(right one)
+      'settings-twice' standard, then set_aperture / set_field_type are called again with the same values
+    route: 'direct' | 'handbuilt' (some surfaces as ready-made Surface objects) | 'reuse' (an Optic that held another lens,
+      emptied with reset()) | 'roundtrip' (Optic.from_dict(to_dict())) | 'roundtrip-twice' | 'file' (save / load_optiland_file)"""
+    import copy
+    import os
+    import tempfile
+    from optiland.optic import Optic
+    if route == 'reuse':
+        other = lensgen.gen_spec(rng, nsurf=len(spec['surfaces']), allow=['plane', 'standard'], mirrors=False, decenter=False)
+        o = lensgen.build(other)
+        try:
+            o.paraxial.f2(); o.paraxial.EPL()
+        except Exception:   # noqa
+            pass
+        o.reset()
+    else:
+        o = Optic()
+    hb = None
+    if route == 'handbuilt':
+        tmp = lensgen.build(spec)
+        n = len(spec['surfaces'])
+        picks = set(rng.sample(range(1, n + 1), rng.choice([1, 1, 2]) if n > 1 else 1))
+        hb = {k: copy.deepcopy(tmp.surface_group.surfaces[k]) for k in picks}
+    sp = copy.deepcopy(spec)
+    if history == 'fields-first':
+        for f in spec['fields']:
+            o.add_field(y=f[0], x=f[1], vx=f[2], vy=f[3])
+        for w_, prim in spec['wavelengths']:
+            o.add_wavelength(w_, is_primary=prim)
+        sp['fields'], sp['wavelengths'] = [], []
+    elif history == 'type-changed':
+        sp['field_type'] = 'object_height' if spec['field_type'] == 'angle' else 'angle'
+    o = lensgen.build(sp, optic=o, handbuilt=hb)
+    if history == 'type-changed':
+        o.set_field_type(spec['field_type'])
+    elif history == 'settings-twice':
+        o.set_aperture(spec['aperture'][0], spec['aperture'][1])
+        o.set_field_type(spec['field_type'])
+    if route in ('roundtrip', 'roundtrip-twice'):
+        o = Optic.from_dict(o.to_dict())
+        if route == 'roundtrip-twice':
+            o = Optic.from_dict(o.to_dict())
+    elif route == 'file':
+        from optiland.fileio.optiland_handler import save_optiland_file, load_optiland_file
+        fd, path = tempfile.mkstemp(suffix='.json', prefix='c09_')
+        os.close(fd)
+        try:
+            save_optiland_file(o, path)
+            o = load_optiland_file(path)
+        finally:
+            os.remove(path)
+    return o
+
+
 def in_scope(spec):
     """the property quantifies over infinite objects with angular fields and finite objects with
     height fields, fields along y"""
